@@ -49,6 +49,9 @@ def generate(rng, tier, idx):
             op = rng.choice(['wp', 'wp', 'wpr', 'wpr', 'ep', 'ep', 'pp1', 'pp2'] if rng.random() < 0.4 else ['wp', 'wpr', 'ep'])
             steps.append({'op': op, 'sel': pipe.gen_selector(rng, w['n_models']), 'additional': rng.random() < 0.4,
                           'channel': sc['channel'] if rng.random() < 0.8 else 'path'})
+    if rng.random() < 0.3:
+        from ..author import prelude_spec
+        sc['prelude'] = {'world': prelude_spec(w, rng), 'seed': rng.randrange(1 << 30)}
     sc['steps'] = steps
     return sc
 
@@ -310,6 +313,8 @@ def _check_text(op, od, R, want, cols, lookup, out):
 
 
 def lowerings(sc, viol=None):
+    if sc.get('prelude'):
+        yield dict(sc, prelude=None)
     for i in range(len(sc['sources'])):
         if len(sc['sources']) > 1:
             yield dict(sc, sources=sc['sources'][:i] + sc['sources'][i + 1:])
